@@ -2,7 +2,7 @@
 # usage: tools/run_all.sh [quick|thorough]  - every check in turn on /repo; prints the summary line and exit code of each
 tier=${1:-quick}
 for i in $(seq -w 1 20); do
-  out=$(/verif/check C$i --tier $tier 2>&1); rc=$?
+  out=$(/verif/check C$i --tier $tier ${SEED:+--seed $SEED} 2>&1); rc=$?
   echo "C$i exit=$rc $(echo "$out" | grep "C$i $tier:" | tail -1)"
   echo "$out" | grep -E "^(VIOLATION|KNOWN-FINDING|MACHINERY)" | head -5
 done
